@@ -73,6 +73,63 @@ def check(run, prog, tier):
     run.rule("C07-J", "both forms hand back the full complex result of acting on an operator: no apply() writes its result into the "
                       "array the operand already holds (which may be real)", minimum=4)
     rule_J(run, prog)
+    run.rule("C07-K", "the time-dependent tensor and the time-independent one that a system builds for the same request are built from "
+                      "the same inputs: in every branch `if time_dependent: TD(...) else: TI(...)` of get_RelaxationTensor the two "
+                      "constructors get the same value for every option both of them take (cut-off time, operator form)", minimum=3)
+    rule_K(run, prog)
+
+
+def rule_K(run, prog):
+    """'... at its last time index equals the time-independent tensor built from the same inputs': the inputs named in the
+    call of get_RelaxationTensor reach both siblings.  An option that only one of the two constructors has is left out of
+    the comparison."""
+    from ..loader import ClassInfo
+    rid = "C07-K"
+    f = prog.func("quantarhei.builders.opensystem.OpenSystem.get_RelaxationTensor")
+    prog.consulted.add(f.relpath)
+    n = 0
+
+    def ctor_calls(stmts):
+        out = []
+        for st in stmts:
+            for c in ast.walk(st):
+                if isinstance(c, ast.Call) and isinstance(c.func, ast.Name):
+                    try:
+                        tgt = prog.resolve_name(f.module, c.func.id, f)
+                    except Exception:
+                        tgt = None
+                    if isinstance(tgt, ClassInfo) and prog.is_subclass(tgt, "RelaxationTensor"):
+                        init = prog.find_method(tgt, "__init__")
+                        ps = [a.arg for a in init.node.args.args[1:] + init.node.args.kwonlyargs] if init is not None else []
+                        out.append((c, tgt, ps))
+        return out
+
+    for iff in walk_no_nested(f.node):
+        if not (isinstance(iff, ast.If) and norm(iff.test) == "time_dependent" and iff.orelse):
+            continue
+        td, ti = ctor_calls(iff.body), ctor_calls(iff.orelse)
+        if len(td) != 1 or len(ti) != 1:
+            continue
+        (c1, k1, p1), (c2, k2, p2) = td[0], ti[0]
+        n += 1
+        common = [p for p in p1 if p in p2 and p not in ("ham", "sbi", "initialize")]
+
+        def given(c, ps):
+            d = {k.arg: norm(k.value) for k in c.keywords if k.arg}
+            for p_, a in zip(ps, c.args):
+                d.setdefault(p_, norm(a))
+            return d
+        g1, g2 = given(c1, p1), given(c2, p2)
+        diff = [p for p in common if g1.get(p) != g2.get(p)]
+        run.obligation(rid, f.short, not diff, key="siblings:%s/%s" % (k1.name, k2.name),
+                       message="get_RelaxationTensor builds %s with %s and its time-independent sibling %s with %s: the option%s %s "
+                               "reach%s one of the two only, so the tensor for time_dependent=False is not the long-time limit of the "
+                               "one for time_dependent=True of the same request"
+                               % (k1.name, {p: g1.get(p) for p in common}, k2.name, {p: g2.get(p) for p in common},
+                                  "s" if len(diff) > 1 else "", diff, "" if len(diff) > 1 else "es"),
+                       loc=f.loc(c2), sample={"common_options": common, "td": g1, "ti": g2})
+    if n < 3:
+        raise AnalysisError("C07-K: only %d time-dependent / time-independent sibling branches found in get_RelaxationTensor" % n)
 
 
 def rule_J(run, prog):
